@@ -150,6 +150,20 @@ theorem glob_write {s : State} {i : Nat} {th th' : Th} {f : Fld} {sh' : Sh}
         exact List.mem_cons_of_mem _ (hG.own b hb th (hij ▸ hth))
       · simp only [hij, if_false] at hj
         exact hG.own b hb thj hj
+  · show sh'.hist.Pairwise _
+    rw [hhist]
+    exact ordered_cons hG.ordered hth (by rw [hhb]; exact fun x hx => List.mem_cons_of_mem _ hx) rfl
+      (fun b hb hc => by rw [hhb]; exact List.mem_cons_of_mem _ (writer_norace (atm := false) hG hth hw ht hf (fun _ => hft) b hb hc))
+  · intro _ a ha
+    simp only at ha
+    rw [hhist] at ha
+    rcases List.mem_cons.mp ha with rfl | ha
+    · simp [mkAcc]
+    · exact hG.rawNoStore ht a ha
+  · show sh'.hist.Pairwise _
+    rw [hhist]
+    refine List.pairwise_cons.mpr ⟨fun b hb hst => ?_, hG.noWriteAfterStore⟩
+    rw [hG.rawNoStore ht b hb] at hst; cases hst
 
 
 theorem genOf_eq {th : Th} {v : TV} {g : Nat} (h : th.tv = some (v, g)) : genOf th = g := by
